@@ -28,7 +28,9 @@ def menu(rng):
     sset = rng.choice([f'{base+1}', f'{base+1}:{base+2}', '1:*', f'{base+2}:{base+3}'])
     k = rng.choice(['move', 'move', 'moveself', 'copy', 'append2', 'append3', 'appendbox',
                     'expunge', 'uidexpunge', 'movemissing', 'copymissing', 'appendmissing',
-                    'storero'])
+                    'storero', 'appendcancel', 'appendcancel'])
+    if k == 'appendcancel':
+        return ('appendcancel', rng.choice(['INBOX', 'Box']), rng.choice([1, 2]))
     if k == 'move':
         return ('move', um, sset, 'Box')
     if k == 'moveself':
@@ -54,7 +56,14 @@ def menu(rng):
     return ('append', 'RO', 2, ())               # NO [READ-ONLY]
 
 
-def other_cmd(rng):
+def other_cmd(rng, family='plain'):
+    if family == 'movers':
+        um = rng.random() < 0.5
+        base = 100 if um else 0
+        return ('move', um, rng.choice([f'{base+1}', f'{base+1}:{base+2}', '1:*']),
+                rng.choice(['Box2', 'Box2', 'Box']))
+    if family == 'vanish':
+        return rng.choice([('delete', 'Box'), ('rename', 'Box', 'Box3')])
     k = rng.choice(['store', 'fetch', 'noop', 'append', 'none'])
     if k == 'store':
         return ('store', True, rng.choice(['101', '102', '1:*']), '+', False,
@@ -68,24 +77,27 @@ def other_cmd(rng):
     return None
 
 
-def one(seed, cmd, k, fault, bcmd, bplace):
+def one(seed, cmd, k, fault, bcmd, bplace, family='plain'):
     """run `cmd` on session a, inject `fault` when a is at its k-th parking point
     (k = 0: before it starts running), b's command is issued when a is at parking
     point bplace and stepped alternately.  Returns (SyncRun, parking points of a)."""
     rng = random.Random(seed)
     init = [rng.choice([(), ('\\Deleted',), ('\\Seen',), ('\\Deleted',)]) for _ in range(rng.randint(2, 4))]
-    run = SyncRun(init_flags=init, sessions=['a', 'b'], controlled=True, boxes=('Box', 'RO'))
+    run = SyncRun(init_flags=init, sessions=['a', 'b'], controlled=True, boxes=('Box', 'Box2', 'RO'))
     run.log_state = True
     appends = []
     try:
         run.w.mailbox_set()._set['RO']._readonly = True
         for s in ('a', 'b'):
-            for c in (('select', 'INBOX'), ('fetch', False, '1:*', False)):
+            # family 'vanish': a has selected the mailbox that b is going to delete / rename
+            box = 'Box' if (family == 'vanish' and s == 'a') else 'INBOX'
+            for c in (('select', box), ('fetch', False, '1:*', False)):
                 run.issue(s, c)
                 run.finish(s)
         run.state_event()
         run.issue('a', cmd)
-        if cmd[0] == 'append' and cmd[2] > 1:
+        # an APPEND the client aborts with a zero-length literal never "completes with OK"
+        if (cmd[0] == 'append' and cmd[2] > 1) or cmd[0] == 'appendcancel':
             appends.append({'cids': list(run.inflight['a']['cids']), 'ok': False})
         points = 0
         injected = False
@@ -129,7 +141,9 @@ def one(seed, cmd, k, fault, bcmd, bplace):
                     and ev['cond'] == 'OK' and appends:
                 appends[-1]['ok'] = True
         run.state_event()
-        run.events.append({'e': 'end', 'appends': appends})
+        nocopy = cmd[0] in ('move', 'expunge', 'uidexpunge') and (bcmd is None or bcmd[0] in (
+            'move', 'store', 'fetch', 'noop'))
+        run.events.append({'e': 'end', 'appends': appends, 'nocopy': nocopy})
     finally:
         run.close()
     return run, points
@@ -159,8 +173,20 @@ def main(tier: str) -> int:
     for i in range(ncmd):
         seed = rng.randrange(1 << 30)
         cmd = menu(rng)
-        bcmd = other_cmd(rng)
-        clean, points = one(seed, cmd, -1, 'none', bcmd, rng.randint(0, 3))
+        family = 'plain'
+        if cmd[0] == 'move' and cmd[3] != 'Nope' and rng.random() < 0.6:
+            family = 'movers'          # a second session MOVEs (partly) the same messages
+        elif cmd[0] == 'append' and cmd[1] == 'INBOX' and rng.random() < 0.5:
+            family = 'vanish'          # the mailbox a has selected disappears meanwhile
+        bcmd = other_cmd(rng, family)
+        if family != 'plain':
+            # every placement of the second session's command against the clean run
+            for bp in range(0, 6):
+                fr, _ = one(seed, cmd, -1, 'none', bcmd, bp, family)
+                traces.append(fr.events)
+                meta.append({'cmd': cmd, 'k': -1, 'fault': 'none', 'bcmd': bcmd, 'bplace': bp,
+                             'points': 0, 'seed': seed, 'family': family})
+        clean, points = one(seed, cmd, -1, 'none', bcmd, rng.randint(0, 3), family)
         traces.append(clean.events)
         meta.append({'cmd': cmd, 'k': -1, 'fault': 'none', 'bcmd': bcmd, 'points': points,
                      'seed': seed})
@@ -169,7 +195,7 @@ def main(tier: str) -> int:
                 if fault == 'raise' and k == 0:
                     continue
                 bplace = rng.randint(0, max(0, points))
-                fr, _ = one(seed, cmd, k, fault, bcmd, bplace)
+                fr, _ = one(seed, cmd, k, fault, bcmd, bplace, family)
                 traces.append(fr.events)
                 meta.append({'cmd': cmd, 'k': k, 'fault': fault, 'bcmd': bcmd,
                              'bplace': bplace, 'points': points, 'seed': seed})
